@@ -53,6 +53,71 @@ def translate():
     rc, out = sh([sys.executable, os.path.join(HERE, "translate.py")], env={**os.environ, "OSQ_REPO": os.environ.get("OSQ_REPO", "/repo")})
     return rc == 0, out.strip()
 
+def table_fallback_check():
+    """The translator recognises one source shape per construct.  When /repo's default_gates.py (or the constants) are written
+    differently, the generated table of the last recognised source is kept and the tie for the table falls back to the second
+    mechanism: the implementation's default gates, aliases, measures, resets and constants are compared with what the model
+    computes from the table, on a fixed grid of parameters and operand placements.  Returns (ok, message, n_compared)."""
+    import math
+    sys.path.insert(0, HERE)
+    import ops as O, model as M, wire as W
+    from opensquirrel.default_gates import default_gate_set, default_gate_aliases
+    from opensquirrel.default_measures import default_measure_set
+    from opensquirrel.default_resets import default_reset_set
+    import inspect
+    problems = []; n = 0
+    reqs = []; impls = []
+    thetas = [-7.3, -3.5, -math.pi, -2.0, -1e-3, 0.0, 1e-9, 0.3, 1.0, math.pi / 2, math.pi, 3.5, 2 * math.pi, 9.0, 40.1]
+    ks = [-2, 0, 1, 2, 3, 7, 33]
+    names = []
+    for f in default_gate_set:
+        name = f.__name__; names.append(name)
+        sig = inspect.signature(f)
+        kinds = []
+        for par in sig.parameters.values():
+            a = str(par.annotation)
+            kinds.append("q" if "Qubit" in a else ("f" if "Float" in a else ("i" if "Int" in a else "?")))
+        if "?" in kinds: problems.append(f"{name}: parameter kinds {kinds}"); continue
+        nq = kinds.count("q")
+        for ops_ in ([(0,), (2,)] if nq == 1 else [(0, 1), (1, 0), (2, 0)]):
+            plist = thetas if "f" in kinds else (ks if "i" in kinds else [None])
+            for p_ in plist:
+                it = iter(ops_); args = []
+                for k_ in kinds:
+                    args.append(["q", next(it)] if k_ == "q" else [k_, p_])
+                reqs.append(O.req_named(name, args)); impls.append((name, args))
+    reqs.append("consts")
+    try:
+        replies = M.run_batch(reqs)
+    except Exception as ex:
+        return False, f"model driver unavailable: {ex!r}", 0
+    for (name, args), line in zip(impls, replies[:-1]):
+        r = O.impl_named(name, args); m = O.parse_stmt(line)
+        n += 1
+        if m is None or r["err"] != m["err"] or (r["err"] is None and W.diff(r["v"], m["v"], 1e-12)):
+            problems.append(f"{name}{args}: implementation {r['err'] or 'ok'} vs table {m and (m['err'] or 'ok')} {'' if m is None or r['err'] or m['err'] else W.diff(r['v'], m['v'], 1e-12)}")
+            if len(problems) > 5: break
+    # gate set order, aliases, measure / reset sets, constants
+    from opensquirrel.common import ATOL
+    from opensquirrel.writer.writer import _WriterImpl
+    try:
+        am, ae, wp = [int(x) for x in replies[-1].split()[:3]]
+        if abs(am * 10.0 ** (-ae) - ATOL) > 1e-30: problems.append(f"ATOL {ATOL} vs table {am}e-{ae}")
+        if wp != _WriterImpl.FLOAT_PRECISION: problems.append(f"writer precision {_WriterImpl.FLOAT_PRECISION} vs table {wp}")
+    except Exception as ex:
+        problems.append(f"constants: {ex!r}")
+    tab = open(os.path.join(LEAN, "OSq", "Generated", "Tables.lean")).read()
+    def lst(var):
+        mm = re.search(r"def " + var + r" : List String := \[(.*?)\]", tab, re.S)
+        return re.findall(r'"([^"]*)"', mm.group(1)) if mm else None
+    if lst("gateSet") != names: problems.append(f"gate set {names} vs table {lst('gateSet')}")
+    if lst("measureSet") != [f.__name__ for f in default_measure_set]: problems.append("measure set differs from the table")
+    if lst("resetSet") != [f.__name__ for f in default_reset_set]: problems.append("reset set differs from the table")
+    mm = re.search(r"def aliases : List \(String × String\) := \[(.*?)\]\n", tab, re.S)
+    tab_al = re.findall(r'\("([^"]*)", "([^"]*)"\)', mm.group(1)) if mm else None
+    if tab_al is None or sorted(tab_al) != sorted((a, f.__name__) for a, f in default_gate_aliases.items()): problems.append("aliases differ from the table")
+    return (not problems), ("; ".join(problems[:4]) if problems else f"table of the last recognised source validated against the implementation on {n} default-gate calls, the gate/measure/reset sets, aliases and constants"), n
+
 def strip_comments(src: str) -> str:
     src = re.sub(r"/-.*?-/", "", src, flags=re.S)
     return re.sub(r"--.*", "", src)
@@ -201,6 +266,16 @@ def write_replay(run: Run, kind, entry, prove_res):
 
 def finish(run: Run, prove_res, level_note=""):
     """decide, write evidence, print lines, return exit code"""
+    if not prove_res["translator_ok"]:
+        try:
+            ok_fb, msg_fb, n_fb = table_fallback_check()
+        except Exception as ex:
+            ok_fb, msg_fb, n_fb = False, f"fallback check failed: {ex!r}", 0
+        prove_res["translator_fallback_ok"] = ok_fb; prove_res["translator_fallback_msg"] = msg_fb
+        prove_res["translator_msg"] = prove_res.get("translator_msg", "") + (" - FALLBACK: " + msg_fb)
+        run.notes.append("translator: " + prove_res["translator_msg"])
+        if ok_fb:
+            print(f"[{run.pid}] note: the translator does not recognise the shape of the source; {msg_fb}")
     # soft disagreements (same operation, different representation) are threshold ambiguities when they are rare;
     # a systematic divergence of the model shows up as many of them and breaks the tie
     soft_limit = max(2, run.evaluations // 1000)
@@ -246,8 +321,8 @@ def finish(run: Run, prove_res, level_note=""):
         broken = []
         if prove_res["obligations"] != prove_res["discharged"] or prove_res["failed"]:
             broken.append("theorems no longer checking: " + "; ".join(prove_res["failed"][:5]))
-        if not prove_res["translator_ok"]:
-            broken.append("translator: " + prove_res.get("translator_msg", ""))
+        if not prove_res["translator_ok"] and not prove_res.get("translator_fallback_ok"):
+            broken.append("translator: " + prove_res.get("translator_msg", "") + "; fallback: " + prove_res.get("translator_fallback_msg", ""))
         if not prove_res["driver_ok"]:
             broken.append("model driver does not build")
         if run.mismatches:
